@@ -178,6 +178,9 @@ func Run(tape *Tape, cfg Config, main func(), onStuck func()) *Outcome {
 		}
 		sort.Ints(s.pctNext)
 	}
+	for _, f := range resets {
+		f() // package state of the code under test as in a fresh process
+	}
 	cur = s
 	epoch++
 	defer func() { cur = nil }()
@@ -261,6 +264,12 @@ func trimStack(b []byte) string {
 	}
 	return strings.Join(out, "\n")
 }
+
+var resets []func()
+
+// RegisterReset registers a function that restores a package's variables to their initial values
+// (generated by the rewriter); every run starts by calling all of them.
+func RegisterReset(f func()) { resets = append(resets, f) }
 
 // NoteProgress tells the scheduler that the harness has observed something (a call began or ended,
 // an item arrived): whatever runs is not merely spinning. A no-op outside a simulation.
@@ -811,10 +820,14 @@ func HashEvent(x uint64) {
 // Tearing reports whether the run is being torn down.
 func Tearing() bool { s := cur; return s == nil || s.tearing }
 
-// GOMAXPROCS stands in for runtime.GOMAXPROCS.
+// GOMAXPROCS stands in for runtime.GOMAXPROCS (a positive argument sets it, as the real one does).
 func GOMAXPROCS(n int) int {
 	s := must()
-	return s.cfg.GOMAXPROCS
+	old := s.cfg.GOMAXPROCS
+	if n > 0 {
+		s.cfg.GOMAXPROCS = n
+	}
+	return old
 }
 
 // TaskStates describes all live tasks (for stuck oracles).
